@@ -87,7 +87,8 @@ class Host:
 
     def call(self, job):
         with self.lock:
-            self.proc.stdin.write((json.dumps(job) + "\n").encode())
+            data = json.dumps(job).encode()
+            self.proc.stdin.write(b"%d\n" % len(data) + data)
             self.proc.stdin.flush()
             line = self.proc.stdout.readline()
         if not line:
